@@ -112,7 +112,7 @@ inductive Pc
   | rRead                      -- reader: blocked in ReadMessage
   | rErr                       -- ReadMessage failed                      [read.msg]
   | dLoaded (st : Status)      -- readDisconnected loaded the status      [disc.load]
-  | dStored (st : Status)      -- status := PassiveClosing                [disc.store]
+  | dStored (st : Status)      -- status CAS loaded → PassiveClosing done  [disc.store]
   | dCancel (st : Status)      -- index entry deleted, handlers awaited   [disc.cancel]
   | dClose (st : Status)       -- cancel loop done
   | dRedial                    -- socket closed                           [disc.redial]
@@ -251,7 +251,9 @@ def threadStep (s : State) (i : Nat) : Option State :=
     | .dLoaded st, _ =>
       if st = .passiveClosed ∨ st = .activeClosed ∨ st = .passiveClosing then some (s.setPc i role .exit)
       else if st = .activeClosing then some (s.setPc i role (.dStored st))
-      else some ({ s with status := .passiveClosing }.setPc i role (.dStored st))
+      -- `tryChangeStatus(statusPassiveClosing, status)`; when it fails: load again
+      else if s.status = st then some ({ s with status := .passiveClosing }.setPc i role (.dStored st))
+      else some (s.setPc i role .rErr)
     | .dStored st, _ => some ({ s with hub := s.hub.erase s.id }.setPc i role (.dCancel st))
     | .dCancel st, _ =>
       if s.callerBusy then none
@@ -312,7 +314,10 @@ def step (s : State) : Ev → Option State
     | none => none
   | .setUser =>
     if s.id = .user then some s
-    else some { s with id := .user, hub := (hubSet s.hub .user).erase s.id }
+    -- only a session in Preparing / Ok touches the index; otherwise the id alone changes
+    else if s.status = .preparing ∨ s.status = .ok then
+      some { s with id := .user, hub := (hubSet s.hub .user).erase s.id }
+    else some { s with id := .user }
   | .call =>
     some { s with calls := s.calls ++ [⟨s.conn, false, none⟩],
                   threads := s.threads ++ [⟨.caller s.calls.length, .wCheck⟩] }
